@@ -95,6 +95,10 @@ def obs_members(shape, objs, devs=1):
     for o in objs:
         yield (base, ay, ax, 'F', o)
     yield (fill(shape, HIDDEN), ay, ax, 'F', NONE)
+    # the observation space admits the agent at any cell of the view (the encoding carries the position, not the heading)
+    for c in cells:
+        if c != (ay, ax):
+            yield (base, c[0], c[1], 'F', NONE)
     if devs >= 2:
         for c1, c2 in itertools.combinations(cells, 2):
             for o1 in gobjs[1:]:
